@@ -145,3 +145,113 @@ Print Assumptions C03_pruning_immaterial.
 Print Assumptions C03_elim_terminal.
 Print Assumptions C03_prune_terminal.
 Print Assumptions C03_history_nonvacuous.
+
+(* x-acprune begin ------------------------------------------------------------------------------------------------
+   The pruned composition at the level of the slab arena.  Pwl/ACPrune.v is an executable machine over the arena of
+   AffContent cells for generic_composition_inplace with C::explore = is_edge_feasible: explicit LIFO stack and fuel,
+   add_child_node (allocator oracle), is_edge_feasible reading the arena through the parent pointers (path_to_node),
+   remove_child, merge_child_with_parent; every unwrap / assert is the outcome None.  The structural recursions of
+   Pwl/CPrune.v (graftp / cprune / compose_prune), about which the theorems above speak, are what this machine computes.
+   (names qualified: several modules imported above define cwf / cidx / cheight of their own) *)
+From AT Require ArenaCompose ArenaComposeAbs ACPrune ACPruneOps ACPruneRefine ACPruneAll ACPruneCor.
+
+(* is_edge_feasible computed from the arena = explore on the rows of the spine (the cells the parent pointers lead
+   through, root first) followed by the row of the new edge *)
+Theorem C03_arena_is_edge_feasible_is_explore : forall o tol pf a z p node v st chs dir nv nchs nlf k,
+  ACPruneOps.zrep a z p -> (length z < pf)%nat ->
+  aget a p = Some (mkcell (ArenaCompose.mkcont v st) (ACPruneOps.zpar z) chs false) ->
+  aget a node = Some (mkcell (ArenaCompose.mkcont nv Indet) (Some p) nchs nlf) ->
+  Tree.find_label chs node = Some (ACPruneOps.zlab dir) ->
+  ACPrune.is_edge_feasible o tol pf a p node k =
+  Some (explore o tol (Nat.eqb p 0) st (ACPruneOps.zrows z ++ [if dir then row1 v else row0 v]) k).
+Proof. exact ACPruneOps.is_edge_feasible_explore. Qed.
+
+(* one terminal i of the receiver (function tf, cached state st, spine z), counter threaded: for every allocator that
+   hands out unoccupied keys and every oracle the loop body terminates for any fuel above size L, with the counters of
+   graftp, and leaves in the place of i a tree T' of the shape graftp computes (node_post: what else changed -- nothing
+   but the child slot of i's parent --, T' is in the arena with consistent parent pointers, its indices are i or were
+   unoccupied, no index twice) *)
+Theorem C03_arena_compose_prune_one_terminal_counter_threaded : forall alloc o tol pf s L a z i tf st k,
+  ArenaCompose.fresh_alloc alloc -> ArenaComposeAbs.karity 2 L -> L <> U ->
+  aget a i = Some (ACPruneOps.leafcell tf st (ACPruneOps.zpar z)) -> ACPruneOps.zrep a z i ->
+  (length z + ACPruneRefine.pdepth L < pf)%nat -> (z = [] -> i = 0%nat) -> aget a 0%nat <> None ->
+  (forall j, ACPruneRefine.zsib z = Some j -> aget a j <> None) ->
+  exists a' T',
+    (forall fuel, (size L < fuel)%nat ->
+       ACPrune.acp_at alloc o tol pf 2 0 s fuel L a i k =
+       Some (a', snd (graftp o tol s tf L (Nat.eqb i 0) st i (ACPruneOps.zrows z) k))) /\
+    ACPruneRefine.cshape T' (fst (graftp o tol s tf L (Nat.eqb i 0) st i (ACPruneOps.zrows z) k)) /\
+    ACPruneRefine.node_post a z i a' T'.
+Proof. exact ACPruneRefine.acp_at_refines. Qed.
+
+(* AffTree::compose::<true, _> on the arena, terminals in the code's order (ascending arena index), LP oracle that
+   ignores the call number: for every arena a that abstracts to t (cabs; root at index 0, parent pointers and arity
+   as AffTree<2> keeps them, no index twice, terminals without children, no terminal cell outside the tree) the machine
+   returns Ok for any fuel above size L and path fuel above depth t + depth L, with the counters of compose_prune; the
+   arena it returns abstracts to a tree t' of the shape (cshape: everything but arena indices) of compose_prune's
+   result; the decisions of t keep index, value and cached state (cframe); every index of t' is an index of t or was
+   unoccupied in a *)
+Theorem C03_arena_compose_prune_refines_index_free_oracle : forall alloc o tol pf L a t fa,
+  ArenaCompose.fresh_alloc alloc -> ACPruneAll.lp_index_free o -> ArenaComposeAbs.karity 2 L -> L <> U ->
+  cabs fa a 0%nat = Some t -> ACPruneAll.cparents a None t -> NoDup (ACPruneRefine.cidx t) -> ACPruneAll.cwf t ->
+  (forall j, In j (ArenaCompose.terminal_keys a) <-> In j (ACPruneAll.cleaves t)) ->
+  (ACPruneAll.cdepth t + ACPruneRefine.pdepth L < pf)%nat ->
+  exists a' t',
+    (forall fuel, (size L < fuel)%nat ->
+       ACPrune.acompose_prune alloc o tol pf 0 fuel L a = Some (a', snd (compose_prune o tol t L))) /\
+    (forall F, (ACPruneAll.cheight t' <= F)%nat -> cabs F a' 0%nat = Some t') /\
+    ACPruneAll.cparents a' None t' /\ NoDup (ACPruneRefine.cidx t') /\
+    ACPruneRefine.cshape t' (fst (compose_prune o tol t L)) /\ ACPruneAll.cframe t t' /\
+    (forall k, In k (ACPruneRefine.cidx t') -> In k (ACPruneRefine.cidx t) \/ aget a k = None).
+Proof. exact ACPruneAll.acompose_prune_refines_index_free_oracle. Qed.
+Theorem C03_arena_compose_prune_refines : forall alloc o tol pf L a t fa,
+  ArenaCompose.fresh_alloc alloc -> ACPruneAll.lp_index_free o -> ArenaComposeAbs.karity 2 L -> L <> U ->
+  cabs fa a 0%nat = Some t -> ACPruneAll.cparents a None t -> NoDup (ACPruneRefine.cidx t) -> ACPruneAll.cwf t ->
+  (forall j, In j (ArenaCompose.terminal_keys a) <-> In j (ACPruneAll.cleaves t)) ->
+  (ACPruneAll.cdepth t + ACPruneRefine.pdepth L < pf)%nat ->
+  exists a' t',
+    (forall fuel, (size L < fuel)%nat ->
+       ACPrune.acompose_prune alloc o tol pf 0 fuel L a = Some (a', snd (compose_prune o tol t L))) /\
+    (forall F, (ACPruneAll.cheight t' <= F)%nat -> cabs F a' 0%nat = Some t') /\
+    ACPruneAll.cparents a' None t' /\ NoDup (ACPruneRefine.cidx t') /\
+    ACPruneRefine.cshape t' (fst (compose_prune o tol t L)) /\ ACPruneAll.cframe t t' /\
+    (forall k, In k (ACPruneRefine.cidx t') -> In k (ACPruneRefine.cidx t) \/ aget a k = None).
+Proof. exact ACPruneAll.acompose_prune_refines_index_free_oracle. Qed.
+
+(* with C03_compose_prune: the tree held by the arena the machine returns evaluates as the composed function, at every x
+   the oracle's Infeasible answers and the cached marks treat soundly *)
+Theorem C03_arena_compose_prune_preserves : forall alloc o tol pf L a t fa x,
+  ArenaCompose.fresh_alloc alloc -> ACPruneAll.lp_index_free o -> ArenaComposeAbs.karity 2 L -> L <> U ->
+  cabs fa a 0%nat = Some t -> ACPruneAll.cparents a None t -> NoDup (ACPruneRefine.cidx t) -> ACPruneAll.cwf t ->
+  (forall j, In j (ArenaCompose.terminal_keys a) <-> In j (ACPruneAll.cleaves t)) ->
+  (ACPruneAll.cdepth t + ACPruneRefine.pdepth L < pf)%nat ->
+  osound o x -> bin2 L -> cbin t -> terms_ok comp_schema t -> marks_ok x [] t ->
+  exists a' t' k',
+    (forall fuel, (size L < fuel)%nat -> ACPrune.acompose_prune alloc o tol pf 0 fuel L a = Some (a', k')) /\
+    (forall F, (ACPruneAll.cheight t' <= F)%nat -> cabs F a' 0%nat = Some t') /\
+    cev t' x = eval (compose (erase t) L) x.
+Proof. exact ACPruneCor.acompose_prune_cev. Qed.
+
+(* non-vacuity: an arena, an lhs, the append allocator and a query-keyed oracle that meet every assumption; the run
+   makes 6 LP calls, merges one grafted decision away (the terminal at index 3 disappears) and agrees with compose_prune *)
+Example C03_arena_compose_prune_nonvacuous :
+  cabs 5 ACPrune.exp_arena 0%nat = Some ACPruneCor.acx_t /\
+  ACPruneAll.cparents ACPrune.exp_arena None ACPruneCor.acx_t /\
+  NoDup (ACPruneRefine.cidx ACPruneCor.acx_t) /\ ACPruneAll.cwf ACPruneCor.acx_t /\
+  (forall j, In j (ArenaCompose.terminal_keys ACPrune.exp_arena) <-> In j (ACPruneAll.cleaves ACPruneCor.acx_t)) /\
+  ArenaCompose.fresh_alloc ArenaCompose.next_key /\ ACPruneAll.lp_index_free ACPruneCor.acx_oracle /\
+  ArenaComposeAbs.karity 2 ACPrune.exp_L /\
+  exists a' k',
+    ACPrune.acompose_prune ArenaCompose.next_key ACPruneCor.acx_oracle 0 4 0 4 ACPrune.exp_L ACPrune.exp_arena = Some (a', k') /\
+    k' = snd (compose_prune ACPruneCor.acx_oracle 0 ACPruneCor.acx_t ACPrune.exp_L) /\ k_lp k' = 6%nat /\
+    option_map (fun t' => ctree_eqb_shape t' (fst (compose_prune ACPruneCor.acx_oracle 0 ACPruneCor.acx_t ACPrune.exp_L)))
+               (cabs 6 a' 0%nat) = Some true /\
+    aget a' 3%nat = None.
+Proof. exact ACPruneCor.acx_run. Qed.
+Print Assumptions C03_arena_is_edge_feasible_is_explore.
+Print Assumptions C03_arena_compose_prune_one_terminal_counter_threaded.
+Print Assumptions C03_arena_compose_prune_refines_index_free_oracle.
+Print Assumptions C03_arena_compose_prune_refines.
+Print Assumptions C03_arena_compose_prune_preserves.
+Print Assumptions C03_arena_compose_prune_nonvacuous.
+(* x-acprune end -------------------------------------------------------------------------------------------------- *)
